@@ -368,7 +368,7 @@ func vpTF(s string) string {
 // constants that occur in the walkers' own code (none on a tree whose walkers
 // treat no key specially).
 func vpGenKey() string {
-	if w := vpStrConstOr("interpolateMap,interpolateOrderedMap,interpolateMapValues,interpolateAny,interpolateSlice,interpolateString", ""); w != "" {
+	if w := vpStrConstOr("*interpolate.go", ""); w != "" {
 		return w
 	}
 	return vpStrUpTo(1, "a-b")
